@@ -108,7 +108,6 @@ func (en *Engine) scanCaptureDiscipline(pkg string) (bool, string) {
 	return true, ""
 }
 
-
 // cpsCallee: does the call go through a value of a CPS function type
 // (Seq, cont, next) or through a local closure variable?
 func (en *Engine) cpsCallee(u *UnitInfo, call *ast.CallExpr) (string, bool) {
@@ -275,7 +274,6 @@ func (en *Engine) driverReentryEdges(pkg string) []string {
 	}
 	return out
 }
-
 
 func (en *Engine) funcDecl(pkg, key string) *UnitInfo { return en.prog.Units[pkg+"."+key] }
 
@@ -664,7 +662,6 @@ func (en *Engine) scanRewriterPackageState() (bool, string) {
 	}
 	return true, ""
 }
-
 
 // scanNoMapIteration (C15): Go randomises map iteration order; nothing in the compiler may iterate a map
 // (output order would differ between runs of the same sources).
